@@ -13,7 +13,7 @@ PROPS = {
         "non-trivial = reached the codec (not a harness-level parse failure)",
    assumptions=["Go int arithmetic in encodeGroup/decodeGroup does not overflow (values below 2^10)",
                 "b1t6 decoders are specified only on trits in {-1,0,1} / trytes in [9A-Z] (documented as undefined otherwise)"],
-   trusted_base=["iota.go trinary LUT helpers modelled by their tables (tables regenerated and compared)"]),
+   trusted_base=["iota.go trinary: the four functions b1t6 calls are translated from the pinned module source and tied like the repository's code; nothing of it is merely modelled any more"]),
  "C10": P("C10",
    rule="ops: path.parse (ParsePath and UnmarshalText must agree), path.print (String, MarshalText, ParsePath of it). Enumerated: ALL strings of "
         "length <= 5 (quick) / 6 (thorough) over the alphabet {0,1,7,9,8,m,/,H,',x}; 2^31 boundary values with 0..20 leading zeros, all markers, "
